@@ -1218,22 +1218,28 @@ class SymCtx(BaseCtx):
         s.set("timeout", min(self.timeout_ms, 10000))
         for a in self.assumptions:
             s.add(a)
-        if extra is not None:
-            s.add(extra)
         nice = []
         for name, (c, spec) in self.vars.items():
             if spec.get("nice"):
                 lo, hi = spec["nice"]
                 nice.append(z3.And(c >= to_z3(lo), c <= to_z3(hi)))
         attempts = []
+        ex = [] if extra is None else [extra]
         if want_margin:
+            if extra is not None:
+                # a witness that violates the obligation by a clear relative margin survives binary64 evaluation
+                st = _strengthen_rel(extra, Fraction(1, 100))
+                if st is not None:
+                    ml3, ml6 = self._margin_lits(Fraction(1, 1000)), self._margin_lits(Fraction(1, 10 ** 6))
+                    attempts += [[st] + ml3 + nice, [st] + ml3, [st] + ml6 + nice, [st] + ml6, [st] + list(self.lits)]
+                    attempts.append([_strengthen_rel(extra, Fraction(1, 10 ** 5))] + ml6)
             for eps in (Fraction(1, 1000), Fraction(1, 10 ** 6), Fraction(1, 10 ** 9)):
                 ml = self._margin_lits(eps)
                 if eps == Fraction(1, 1000):
-                    attempts.append(ml + nice)
-                attempts.append(ml)
+                    attempts.append(ex + ml + nice)
+                attempts.append(ex + ml)
         if not margin_only:
-            attempts.append(list(self.lits) + nice)
+            attempts.append(ex + list(self.lits) + nice)
         for att in attempts:
             self.stats["queries"] += 1
             t0 = time.time()
@@ -1287,6 +1293,28 @@ def _strengthen(lit, eps):
         e = z3.RealVal(eps)
         return z3.Or(a >= b + e, a + e <= b)
     return lit
+
+
+def _strengthen_rel(lit, eps):
+    """violation literal with a relative margin: a<b -> a + eps*max(|a|,|b|)... <= b ; None if the literal has another shape"""
+    neg = False
+    t = lit
+    if z3.is_not(t):
+        neg = True
+        t = t.arg(0)
+    if not z3.is_app(t) or t.num_args() != 2 or t.arg(0).sort().kind() != z3.Z3_REAL_SORT:
+        return None
+    k = t.decl().kind()
+    a, b = t.arg(0), t.arg(1)
+    e = z3.RealVal(eps)
+    gap = e * (z3.If(a >= 0, a, -a) + z3.If(b >= 0, b, -b)) + z3.RealVal(Fraction(1, 10 ** 9))
+    if k in (z3.Z3_OP_LE, z3.Z3_OP_LT):
+        return (a >= b + gap) if neg else (a + gap <= b)
+    if k in (z3.Z3_OP_GE, z3.Z3_OP_GT):
+        return (a + gap <= b) if neg else (a >= b + gap)
+    if (k == z3.Z3_OP_EQ and neg) or (k == z3.Z3_OP_DISTINCT and not neg):
+        return z3.Or(a >= b + gap, a + gap <= b)
+    return None
 
 
 class ConcCtx(BaseCtx):
